@@ -27,12 +27,18 @@ def ints(a, scale):
     return [int(x) for x in numpy.rint(numpy.asarray(a, dtype=float) * scale)]
 
 
-def records_of(calc, tag):
+def records_of(calc, tag, settings=None):
     vb, pb = calc.volume_base, calc.pressure_base
     P = numpy.asarray(vb.pressures) * G                # (nt, ntv) GPa
     pj = numpy.asarray(pb.p_array) * G
     ps = 1e4
     out = []
+    if settings is not None:
+        # the pressure axis of the pressure base IS the requested grid P_MIN + j DELTA_P, j < NTV (what the range check has seen)
+        want = float(settings["P_MIN"]) + float(settings["DELTA_P"]) * numpy.arange(int(settings["NTV"]))
+        if pj.shape != want.shape or not numpy.allclose(pj, want, rtol=1e-7, atol=1e-7):      # (unit factor literal vs pint: 2e-9)
+            out.append({"kind": "grid", "name": "p_array", "tag": tag, "got": [len(pj), float(pj[0]), float(pj[-1])], "want": [len(want), float(want[0]), float(want[-1])]})
+            pj = want
 
     def add(kind, name, F_tv, R_tp):
         F_tv, R_tp = numpy.asarray(F_tv, dtype=float), numpy.asarray(R_tp, dtype=float)
@@ -106,6 +112,14 @@ def main(ctx, replay=None):
             d = wd.sub(f"run{n}")
             lo, hi = ds.fit_pressure_window(d)
             ds2 = None
+            if n % 3 == 1:
+                # a decimal pressure step that binary floating point cannot represent, with a column count at which a naive
+                # arange(P_MIN, P_MIN + NTV * DELTA_P, DELTA_P) comes out one entry too long
+                dp = float(rng.choice([0.1, 0.2, 0.3]))
+                pm = round(float(ds.settings["P_MIN"]) + 0.3, 1)
+                bad_n = [k for k in range(8, 20) if len(numpy.arange(pm, pm + k * dp, dp)) != k]
+                if bad_n and pm + 20 * dp < hi:
+                    ds.settings.update({"P_MIN": pm, "DELTA_P": dp, "DELTA_P_SAMPLE": dp, "NTV": int(rng.choice(bad_n))})
             if n % 2 == 0:
                 # a second calculation in the same process on the SAME pressure grid (P_MIN, DELTA_P, NTV) but another material and
                 # another volume_ratio: its conversion must use its own P(T,V) field.  The shared grid lies inside both ranges.
@@ -143,7 +157,7 @@ def main(ctx, replay=None):
                         pass                                  # writing is C15's business
                     finally:
                         os.chdir(here)
-                r = records_of(calc, tag)
+                r = records_of(calc, tag, dset.settings)
                 ctx.count({"run": tag, "nv": dset.nv, "system": dset.system, "records": len(r), "pgrid": [dset.settings["P_MIN"], dset.settings["DELTA_P"]], "after_write_output": wrote})
                 recs += r
         shapes = [r for r in recs if r["kind"] == "shape"]
@@ -152,7 +166,10 @@ def main(ctx, replay=None):
         for r in [r for r in recs if r["kind"] == "items"][:3]:
             ctx.violation(f"{r['name']} ({r['tag']}): the pressure-base tensor read through items() differs from the one read by key "
                           f"(relative deviation {r['dev']})", r, {"clause": "items_vs_key", "name": r["name"].rstrip("0123456789st") or r["name"]})
-        recs = [r for r in recs if r["kind"] not in ("shape", "items")]
+        for r in [r for r in recs if r["kind"] == "grid"][:3]:
+            ctx.violation(f"the pressure axis of the pressure base ({r['tag']}) has {r['got'][0]} points from {r['got'][1]:.6g} to {r['got'][2]:.6g} GPa; requested: "
+                          f"{r['want'][0]} points from {r['want'][1]:.6g} to {r['want'][2]:.6g} GPa", r, {"clause": "requested_grid"})
+        recs = [r for r in recs if r["kind"] not in ("shape", "items", "grid")]
         if len(recs) < 50:
             raise MachineryError("too few isotherm records")
         ok, consumed, tres = validate_trace(ctx, "Trace_V2P", "Trace_V2P.cfg", recs, name="v2p", timeout=900)
